@@ -305,11 +305,13 @@ def genCmpAttrs (cfg : GCfg) (marker : Nat) (forField : Bool) : Gen (List Attr) 
                  .cmp .ord (.list { by_ := some (byExpr .ord), reverse := (← chance 1 2) })]
   else
     let ws ← CmpAttr.all.filterM fun _ => chance 35 100
+    -- on a type or a variant: now and then the field-only arguments (`ignore`, `reverse`, `key`, `by`) anyway
+    let misplaced ← if forField then pure false else chance 1 (if cfg.validBias then 10 else 3)
     ws.mapM fun w => do
       let style ← below 20
       if style == 0 then pure (Attr.cmp w .path)
       else if style == 1 && !cfg.validBias then pure (Attr.cmp w (.nameValue ["1"]))
-      else pure (Attr.cmp w (.list (← genCmpArgs cfg w marker forField)))
+      else pure (Attr.cmp w (.list (← genCmpArgs cfg w marker (forField || misplaced))))
 
 def genDebugAttrs (cfg : GCfg) (marker : Nat) (forField : Bool) : Gen (List Attr) := do
   if !(← chance cfg.debugAttrPct 100) then pure [] else
@@ -347,6 +349,12 @@ def genLevelDeriveEx (cfg : GCfg) (traits : List String) (marker : Nat) : Gen (L
   let withArgs ← chance 3 4
   pure [.deriveEx { items := [{ trait_ := t, args := if withArgs then some (b1, false) else none }], bound := b2 }]
 
+/-- now and then one of the attributes twice (`#[x] was specified twice`; for `derive_ex` the later one wins) -/
+def genDup (cfg : GCfg) (own : List Attr) : Gen (List Attr) := do
+  if own.isEmpty || !(← chance 1 (if cfg.validBias then 40 else 8)) then pure own else
+  let a ← pick own
+  interleave own [a]
+
 def genFieldAttrs (cfg : GCfg) (traits : List String) (marker : Nat) : Gen (List Attr) := do
   let c ← genCmpAttrs cfg marker true
   let d ← genDebugAttrs cfg (marker + 3) true
@@ -355,6 +363,7 @@ def genFieldAttrs (cfg : GCfg) (traits : List String) (marker : Nat) : Gen (List
   let fo ← genForeign cfg
   let own ← interleave c (d ++ df)
   let own ← interleave own de
+  let own ← genDup cfg own
   interleave own fo
 
 def genFields (cfg : GCfg) (ctx : GCtx) (traits : List String) (kind : FieldsKind) (markerBase : Nat) (rawNames : Bool) : Gen Fields := do
@@ -428,9 +437,10 @@ def genItemCase (cfg : GCfg) (fam : String) (seed idx : Nat) : Case := runGen se
     | none => true
   let keepAll ← chance 1 12
   let pool := if isEnum && !keepAll && (cfg.traits.filter enumOk).length > 0 then cfg.traits.filter enumOk else cfg.traits
+  let keepDups ← chance 1 15
   let traits ← (do
     let ts ← listOf nTraits (pick pool)
-    pure ts.eraseDups)
+    pure (if keepDups then ts else ts.eraseDups))
   let (generics, ctx) ← genGenerics cfg
   let typeLevelOwn ← (do
     let c ← genCmpAttrs { cfg with cmpAttrPct := cfg.cmpAttrPct / 3 } 100 false
@@ -438,7 +448,8 @@ def genItemCase (cfg : GCfg) (fam : String) (seed idx : Nat) : Case := runGen se
     let df ← if isEnum then
         (if ← chance cfg.defaultAttrPct 400 then pure [Attr.dflt (.list { value := some (["Self", "::", "A"], .path) })] else pure [])
       else (if ← chance cfg.defaultAttrPct 300 then genDefaultAttrs { cfg with defaultAttrPct := 100 } 104 true else pure [])
-    interleave c (d ++ df))
+    let own ← interleave c (d ++ df)
+    genDup cfg own)
   let fo ← genForeign cfg
   let vis ← pickW visPool
   let raw ← chance 5 100
@@ -459,6 +470,7 @@ def genItemCase (cfg : GCfg) (fam : String) (seed idx : Nat) : Case := runGen se
         let de ← genLevelDeriveEx cfg traits (195 + 50 * i)
         let fo ← genForeign cfg
         let own ← interleave (c ++ d) (df ++ de)
+        let own ← genDup cfg own
         let attrs ← interleave own fo
         let discr ← if kind == .unit && (← chance 1 10) then pure (some [toString (i * 3)]) else pure none
         pure ({ attrs, name := vnames.getD i "Z", fields, discr } : Variant)
@@ -551,6 +563,35 @@ def genImplCase (fam : String) (seed idx : Nat) : Case := runGen seed idx do
   pure { id := s!"{fam}/{seed}/{idx}",
          tags := [s!"base={if baseAssign then "assign" else "binary"}", s!"req={reqStyle}", s!"dump={dump}"],
          entry := .attr args, item := .impl_ item }
+
+/-! ## Items that are neither `struct`, `enum` nor `impl` -/
+
+def otherItemPool : List Toks :=
+  [["fn", "f", "(", ")", "{", "}"], ["pub", "fn", "g", "<", "T", ">", "(", "x", ":", "T", ")", "->", "T", "{", "x", "}"],
+   ["union", "U", "{", "a", ":", "u8", ",", "b", ":", "u16", "}"], ["trait", "Tr", "{", "fn", "f", "(", "&", "self", ")", ";", "}"],
+   ["mod", "m", "{", "}"], ["mod", "m", ";"], ["const", "K", ":", "u8", "=", "1", ";"], ["static", "S", ":", "u8", "=", "1", ";"],
+   ["type", "A", "=", "u8", ";"], ["use", "a", "::", "b", ";"], ["extern", "crate", "x", ";"],
+   ["macro_rules", "!", "m", "{", "(", ")", "=>", "{", "}", ";", "}"], ["extern", "\"C\"", "{", "}"],
+   ["pub", "union", "U", "<", "T", ">", "{", "a", ":", "T", "}"], ["unsafe", "fn", "f", "(", ")", "{", "}"],
+   ["m", "!", "(", ")", ";"], ["trait", "Tr", "=", "Clone", ";"]]
+
+/-- family `other`: the attribute macro on an item it does not support; `#[derive(Ex)]` on a union -/
+def genOtherCase (fam : String) (seed idx : Nat) : Case := runGen seed idx do
+  let n ← below 3
+  let traits ← listOf n (pick ["Clone", "Debug", "Add", "Ord", "Default", "Foo", "Deref"])
+  let dump ← chance 1 6
+  let args : Args := { items := traits.map fun t => { trait_ := t }, dump }
+  let useDerive ← chance 1 4
+  if useDerive then
+    let u ← pick [["union", "U", "{", "a", ":", "u8", ",", "b", ":", "u16", "}"],
+                  ["pub", "union", "U", "<", "T", ">", "{", "a", ":", "T", "}"]]
+    let item := Item.other ((Attr.deriveEx args).toks ++ u)
+    pure { id := s!"{fam}/{seed}/{idx}", tags := ["entry=derive"], entry := .derive, item }
+  else
+    let fo ← genForeign { traits := [], foreignPct := 40 }
+    let body ← pick otherItemPool
+    let item := Item.other (attrsToks fo ++ body)
+    pure { id := s!"{fam}/{seed}/{idx}", tags := ["entry=attr"], entry := .attr args, item }
 
 def opTraits : List String :=
   BinOp.all.map (·.str) ++ BinOp.all.map (fun o => o.str ++ "Assign") ++ ["Neg", "Not"]
